@@ -191,11 +191,77 @@ class ToyTables(Slice):
         return ["rows"]
 
 
+class TablesHistory(Slice):
+    """the tables must show the CURRENT backing store at every point of a load / step / inspect history"""
+    name = "tables-history"
+
+    def gen(self, rng, index, tier):
+        from props.c13 import gen_text
+        ops = []
+        for _ in range(rng.choice([1, 2, 3])):
+            t, kind = gen_text(rng, rng.choice(["falloff", "exit", "falloff", "empty"]))
+            if rng.random() < 0.5 and ".data" not in t:
+                t = t + "\nsw x1, 0(x4)" if kind != "empty" else t
+            ops.append(["load", t])
+            for _ in range(rng.randrange(0, 14)):
+                ops.append(rng.choice(["step", "step", "inspect"]))
+            ops.append("inspect")
+        return {"ops": ops, "five": rng.random() < 0.4, "toy": False}
+
+    def run(self, case, model):
+        import fixedint
+        from architecture_simulator.simulation.riscv_simulation import RiscvSimulation
+        sim = RiscvSimulation(mode="five_stage_pipeline" if case["five"] else "single_stage_pipeline")
+        sim.state.register_file.registers[4] = fixedint.UInt32(0x4000 + 64)
+        findings, cl = [], set()
+        for k, op in enumerate(case["ops"]):
+            try:
+                if isinstance(op, list):
+                    sim.load_program(op[1])
+                    cl.add("load")
+                elif op == "step":
+                    sim.step()
+                else:
+                    low = lower_memory(sim.state)
+                    rows = sim.get_data_memory_entries()
+                    want = sorted({a - a % 4 for a in low.memory_file})
+                    if [r[0][0] for r in rows] != want:
+                        findings.append(("violation", f"op {k}: memory table rows {[r[0][0] for r in rows]} but the backing store holds written words at {want}"))
+                        break
+                    for a, vals in rows:
+                        word = sum(int(low.memory_file.get(a[0] + i, 0)) << (8 * i) for i in range(4))
+                        if read_back(32, word, vals):
+                            findings.append(("violation", f"op {k}: row {a[0]:#x} shows {vals}, the backing store holds {word:#x}"))
+                            break
+                    regs = sim.get_register_entries()
+                    for i, t in enumerate(regs):
+                        if read_back(32, int(sim.state.register_file.registers[i]), t):
+                            findings.append(("violation", f"op {k}: register x{i} shows {t}"))
+                            break
+                    if want:
+                        cl.add("rows")
+                    cl.add("inspect")
+            except Exception as e:
+                cl.add("exc")
+        return findings[:2], cl
+
+    def nontrivial(self, classes):
+        return "rows" in classes
+
+    def required_classes(self, tier):
+        return ["rows", "load", "inspect"]
+
+    def shrink(self, case):
+        ops = case["ops"]
+        for i in range(len(ops) - 1, 0, -1):
+            yield dict(case, ops=ops[:i] + ops[i + 1:])
+
+
 def slices():
-    return [Format(), RvTables(), ToyTables()]
+    return [Format(), RvTables(), ToyTables(), TablesHistory()]
 
 
 BUDGET = {
-    "quick": {"format": 1500, "rv-tables": 300, "toy-tables": 300},
-    "thorough": {"format": "exhaustive", "rv-tables": 5000, "toy-tables": 5000},
+    "quick": {"format": 1500, "rv-tables": 300, "toy-tables": 300, "tables-history": 300},
+    "thorough": {"format": "exhaustive", "rv-tables": 5000, "toy-tables": 5000, "tables-history": 8000},
 }
